@@ -228,8 +228,7 @@ def main(argv=None):
         print(json.dumps(r, indent=1))
         return 1 if r["outcome"] == "violation" else 0
     if a.what == "selftest":
-        from . import selftest
-        return selftest.main()
+        return check("selftest", a.tier, seed, only=a.only, jobs=a.jobs, verbose=a.verbose)
     return check(a.what.upper(), a.tier, seed, only=a.only, jobs=a.jobs, verbose=a.verbose)
 
 
